@@ -15,20 +15,20 @@ impl Pareto {
     /// # Errors
     /// Panics if `alpha <= 0` or `minval <= 0`.
     pub fn new(alpha: f64, minval: f64) -> Self {
-        if alpha <= 0. || minval <= 0. {
+        if !(alpha > 0. && minval > 0.) {
             panic!("Both alpha and beta must be positive.");
         }
         Pareto { alpha, minval }
     }
     pub fn set_alpha(&mut self, alpha: f64) -> &mut Self {
-        if alpha <= 0. {
+        if !(alpha > 0.) {
             panic!("Alpha must be positive.");
         }
         self.alpha = alpha;
         self
     }
     pub fn set_minval(&mut self, minval: f64) -> &mut Self {
-        if minval <= 0. {
+        if !(minval > 0.) {
             panic!("minval must be positive.");
         }
         self.minval = minval;
